@@ -649,6 +649,124 @@ func (r *runner) xsubmit(o hx.Op) {
 	}
 }
 
+// ---------------------------------------------------------------- slowsubmit: a DA call that simply takes a while
+//
+// The backing DA answers `slow`: it works on the batch for `delay` ms (honouring its context), stores it and returns
+// the ids.  Nobody cancels.  In-process the caller waits and gets the ids; behind the proxy it must be the same -
+// same status, same ids, the DA layer holds the same blobs, and they can be read back through the proxy under the ids
+// the caller was given.  (A deadline in the server that covers the handler run loses the response of a call the DA
+// layer completed: regenerated facts serverWriteTimeout / serverReadTimeout, obligation server_no_handler_deadline.)
+const maxSlowDelayMs = 20000
+
+type slowRes struct {
+	res    coreda.ResultSubmit
+	last   error
+	got    [][][]byte
+	stored [][]byte
+}
+
+func (r *runner) slowCall(da coreda.DA, blobs [][]byte, h uint64, delay time.Duration) slowRes {
+	r.fx.back.reset(script{Sub: "slow", H: h, Delay: delay, Get: "ok"})
+	rec := &recDA{DA: da}
+	var m slowRes
+	m.res = types.SubmitWithHelpers(context.Background(), rec, r.fx.logger, blobs, 0, nil)
+	m.last = rec.last
+	m.got = r.fx.back.callsOf("")
+	if len(m.got) > 0 && m.res.Code != coreda.StatusSuccess {
+		// the caller was told something else than success: give the DA layer the time it needs to finish anyway
+		time.Sleep(delay/4 + 50*time.Millisecond)
+	}
+	r.fx.back.mu.Lock()
+	m.stored = r.fx.back.slowKept
+	r.fx.back.mu.Unlock()
+	return m
+}
+
+func (r *runner) slowsubmit(o hx.Op) {
+	c := r.c
+	ms, ok := o.U64("delay")
+	if !ok || ms > maxSlowDelayMs || !o.Has("sizes") {
+		c.Emit("bad-op")
+		return
+	}
+	delay := time.Duration(ms) * time.Millisecond
+	max, _ := o.U64("max")
+	if max == 0 {
+		max = r.fx.defMax
+	}
+	h, _ := o.U64("h")
+	sizes := natList(o.Str("sizes"))
+	blobs := make([][]byte, len(sizes))
+	for i, s := range sizes {
+		blobs[i] = bytes.Repeat([]byte{byte(i%251 + 1)}, int(s))
+	}
+	c.Hit("slowsubmit")
+	d := r.slowCall(r.fx.back, blobs, h, delay)
+	r.fx.cli.DA.MaxBlobSize = max
+	p := r.slowCall(&r.fx.cli.DA, blobs, h, delay)
+	// read back through the proxy what the ids the proxied caller was given resolve to
+	back, backErr := [][]byte(nil), error(nil)
+	if len(p.res.IDs) > 0 {
+		back, backErr = r.fx.cli.DA.Get(context.Background(), p.res.IDs, nil)
+	}
+	sent, backS := "none", sizesOf(back)
+	if len(p.got) > 0 {
+		sent = sizesOf(p.got[0])
+	}
+	if backErr != nil {
+		backS = "err"
+	}
+	c.Emit("d=%s p=%s sent=%s dstored=%s pstored=%s back=%s dis=%s pis=%s dty=%s pty=%s", showSubmit(d.res), showSubmit(p.res), sent,
+		sizesOf(d.stored), sizesOf(p.stored), backS, isList(d.last), isList(p.last), typeName(d.last), typeName(p.last))
+
+	// ---- monitors
+	expSent, refused := refFilter(max, blobs)
+	if refused || len(blobs) == 0 {
+		if len(p.got) > 0 {
+			c.Report("C16/size-filter/oversize-but-sent", fmt.Sprintf("limit %d: nothing may be sent (refused=%v, %d blobs), yet a request reached the DA layer", max, refused, len(blobs)))
+		}
+		if refused && p.res.Code != coreda.StatusTooBig {
+			c.Report("C16/size-filter/oversize-not-refused", fmt.Sprintf("a blob larger than the limit %d stops the prefix; status is %s, not toobig", max, statusName(p.res.Code)))
+		}
+		return
+	}
+	if len(p.got) != 1 || !eqBytesList(p.got[0], expSent) {
+		var g [][]byte
+		if len(p.got) > 0 {
+			g = p.got[0]
+		}
+		if len(p.got) > 1 {
+			c.Report("C16/size-filter/more-than-one-call", fmt.Sprintf("one SubmitWithOptions made %d calls to the server", len(p.got)))
+		}
+		if !eqBytesList(g, expSent) {
+			c.Report("C16/size-filter/not-longest-prefix/"+prefixWhy(len(p.got), g, expSent, blobs), fmt.Sprintf("limit %d, %d blobs: the longest fitting prefix has %d blobs, the server received %d", max, len(blobs), len(expSent), len(g)))
+		}
+	}
+	ref := d
+	if len(expSent) < len(blobs) {
+		ref = r.slowCall(r.fx.back, expSent, h, delay)
+	}
+	same := ref.res.Code == p.res.Code && ref.res.SubmittedCount == p.res.SubmittedCount && eqBytesList(ref.res.IDs, p.res.IDs) && ref.res.Height == p.res.Height
+	switch {
+	case same:
+	case ref.res.Code == coreda.StatusSuccess && eqBytesList(p.stored, expSent):
+		c.Report("C16/result-differs/slow-successful-call-lost-behind-the-proxy", fmt.Sprintf("a DA call that takes %d ms and succeeds: in-process the caller gets %s with %d ids; behind the proxy the DA layer completed the same call (it holds the %d blobs) but the caller is told %s with %d ids (error: %v) - it will submit blobs again that the DA layer has accepted", ms, statusName(ref.res.Code), len(ref.res.IDs), len(p.stored), statusName(p.res.Code), len(p.res.IDs), p.last))
+	case ref.res.Code != p.res.Code:
+		c.Report(submitDiffSignature("slow-answer", ref.res.Code, p.res.Code), fmt.Sprintf("submit answered after %d ms: the caller is told %s in-process and %s through the proxy", ms, statusName(ref.res.Code), statusName(p.res.Code)))
+	default:
+		c.Report("C16/result-differs/submit", fmt.Sprintf("submit answered after %d ms: in-process count=%d ids=%d height=%d, proxied count=%d ids=%d height=%d", ms, ref.res.SubmittedCount, len(ref.res.IDs), ref.res.Height, p.res.SubmittedCount, len(p.res.IDs), p.res.Height))
+	}
+	if p.res.SubmittedCount > uint64(len(expSent)) {
+		c.Report("C16/submitted-count/exceeds-fitting-prefix", fmt.Sprintf("SubmittedCount=%d, fitting prefix %d", p.res.SubmittedCount, len(expSent)))
+	}
+	if !eqBytesList(ref.stored, p.stored) {
+		c.Report("C16/result-differs/contents-after-submit", fmt.Sprintf("slow answer: afterwards the DA layer holds sizes %s when called in-process and %s behind the proxy", sizesOf(ref.stored), sizesOf(p.stored)))
+	}
+	if p.res.Code == coreda.StatusSuccess && (backErr != nil || !eqBytesList(back, expSent[:min(len(expSent), len(p.res.IDs))])) {
+		c.Report("C16/result-differs/retrieve-blobs", fmt.Sprintf("the ids returned for the slow submission do not read back, through the proxy, as the blobs submitted (err=%v, %d blobs)", backErr, len(back)))
+	}
+}
+
 func futureFlag(res coreda.ResultRetrieve) int {
 	if strings.Contains(res.Message, coreda.ErrHeightFromFuture.Error()) {
 		return 1
@@ -776,6 +894,8 @@ func run(c *hx.Ctx) {
 				r.csubmit(o)
 			case "xsubmit":
 				r.xsubmit(o)
+			case "slowsubmit":
+				r.slowsubmit(o)
 			default:
 				c.Emit("bad-op")
 			}
@@ -954,6 +1074,7 @@ func gen(r *hx.Rng, tier string, w io.Writer) {
 	// 5. malformed lines (both sides must answer bad-op)
 	p("reset kind=malformed")
 	bad := []string{"csubmit", "csubmit max=9 a=1 b=2 ans=ok", "csubmit max=9 a=1 b=2 ans=ok gate=x", "csubmit max=9 a=1 ans=ok gate=stub", "csubmit max=9 a=1 b=2 ans=wait gate=da",
+		"slowsubmit", "slowsubmit max=9 sizes=1", "slowsubmit max=9 sizes=1 delay=20001", "slowsubmit max=9 delay=5", "slowsubmit max=9 sizes=1 delay=x", "submit max=5 sizes=1 ans=slow",
 		"xsubmit", "xsubmit max=9 sizes=1", "xsubmit max=9 sizes=1 cancel=late", "xsubmit max=9 cancel=mid", "submit max=5 sizes=1 ans=wait",
 		"submit", "submit max=3 sizes=1", "submit max=3 sizes=1 ans=err:99", "submit ans=ok:x sizes=1", "retrieve", "retrieve ids=ok", "retrieve ids=wrap:8 get=ok", "retrieve ids=msg:zz get=ok", "fetch h=1", "submit max=3 sizes=1,x,2 ans=ok", "retrieve ids=ok get=msg:0 n=1", "submit ans=msg:41 max=5 sizes=2"}
 	for i := 0; i < nMal; i++ {
@@ -1016,6 +1137,17 @@ func gen(r *hx.Rng, tier string, w io.Writer) {
 		p("xsubmit max=5 sizes=- h=9 cancel=%s", how)
 	}
 	p("xsubmit max=0 sizes=%d h=4 cancel=mid", def/4)
+	// a DA call that simply takes a while and succeeds (nobody cancels): quick 300 ms; thorough once beyond 5 s, the
+	// customary value of an http.Server write deadline (which covers the whole handler run)
+	p("slowsubmit max=64 sizes=3,4,0 h=9 delay=300")
+	p("slowsubmit max=5 sizes=3,4 h=9 delay=20")
+	p("slowsubmit max=5 sizes=3,9 h=9 delay=20")
+	p("slowsubmit max=5 sizes=- h=9 delay=20")
+	if tier == "thorough" {
+		p("reset kind=slow-call-beyond-5s") // a scenario of its own: the replay of a finding is this one op
+		p("slowsubmit max=64 sizes=3,4,5 h=9 delay=5500")
+		p("reset kind=cancel-mid-call")
+	}
 	for i := 0; i < nCancel; i++ {
 		if i%40 == 39 {
 			p("reset kind=cancel-mid-call")
